@@ -105,6 +105,14 @@ func writeJSON(path string, v any) error {
 	return os.WriteFile(path, append(b, '\n'), 0644)
 }
 
+func mustJSON(v any) []byte {
+	b, err := json.Marshal(v)
+	if err != nil {
+		panic(err)
+	}
+	return b
+}
+
 func readJSON(path string, v any) error {
 	b, err := os.ReadFile(path)
 	if err != nil {
